@@ -395,3 +395,12 @@ META.update({
     "C20": {"run": lsp.run_c20, "rule": "the real abasic-lsp binary over stdio: initialize, then 3-8 didOpen / didChange notifications over two URIs with 14 fixed documents (non-ASCII strings, comments and DATA, multi-byte illegal characters, duplicate numbers whose later definition is empty or untokenizable, CRLF, line 2^64-1, 300-deep nesting) and generated files (C05's shapes), a semanticTokens/full request after 80% of them; per answer: diagnostics on existing lines with start <= end <= line width in UTF-16 units, equal (as a multiset of line/columns/severity) to the analyzer's messages for the LATEST text with columns computed independently, token data decoding to in-bounds, ordered, non-overlapping tokens with legend types, equal to the analyzer's token classes; finally a request for a never-opened document is answered with an error and shutdown/exit end the process with status 0; the model's diagnostics_of / semantic_tokens_of must equal the server's answers",
             "trusted_base": TB_COMMON, "assumptions": ASSUME_COMMON + ["a document's lines are its LF-separated pieces (the server's notion); JSON-RPC framing and the lsp-server threads are exercised, not modelled; malformed notifications are outside the property's quantifier"]},
 })
+
+
+from . import web  # noqa: E402
+
+META.update({
+    "C19": {"run": web.run_c19, "rule": "page event sequences {load program text (60%%; 15 fixed programs incl. untokenizable lines, NEW, STOP, INPUT, non-ASCII, endless loops; generated files), start, then 3-16 of: tick 45%%, submit (33 fixed texts incl. the break alias, NEW, commands, replies, empty, boundary lines) 35%%, break key 12%%, generated line 8%%} driven through a Rust transliteration of main.ts against abasic_web::JsInterpreter side by side with a bare core interpreter; per event: no trap, no throw, adapter state / outputs (type + text) / error text equal to the core's; NEW followed by 8 probes vs the same probes on a fresh page; the model page (Model/Web.v) must answer every event identically (verdict, pending ticks, input flag, call log)",
+            "trusted_base": TB_COMMON + ["the Rust transliteration of abasic-web/ts/main.ts in the harness (web.rs), tied to main.ts by the generated call skeleton (Gen/Tables.v page_skeleton / page_handlers)"],
+            "assumptions": ASSUME_COMMON + ["wasm32 (32-bit usize, 1 MiB stack) is not executed: the adapter runs natively as an rlib; the DOM side (ui.ts) is not modelled; timers fire one at a time"]},
+})
